@@ -446,8 +446,11 @@ def minimize_lbfgsb(
 
     # print(sf.scaling_factor)
 
-    f0 *= sf.scaling_factor
-    grad *= sf.scaling_factor
+    # On a restart, the objective value and the gradient carried by the checkpoint
+    # (like its correction pairs) are those of the scaled objective already.
+    if checkpoint is None:
+        f0 *= sf.scaling_factor
+        grad *= sf.scaling_factor
     # Note, no need to further update anything because the scaling is handled by the
     # ScalarFunction instance
 
